@@ -10,6 +10,7 @@ VARIABLES phase, checks, bad, streak, passed, loop, lists, listsAfterCancel, can
           lastFail,   \* time (us) at which the fake proxy answered the last failing list call, -1 if none pending
           lastN,      \* retry count the pending back-off was computed for
           answered,   \* the in-flight request's response was uploaded completely
+          arrAfter,   \* list calls that reached the proxy after the polling context was cancelled
           l
 
 \* the instance constants that vary per scenario are read from the state (cfg) by the trace actions;
@@ -18,14 +19,14 @@ A == INSTANCE AgentLife WITH ShiftUnguarded <- FALSE, Threshold <- 1000000, Heal
                              MaxLists <- 1000000, Latency <- 0, PollBeforeHealthy <- FALSE, NoReset <- FALSE, CancelWorkers <- FALSE
 avars == <<phase, checks, bad, streak, passed, loop, lists, listsAfterCancel, cancelled, signalled, clock, req, reqAt,
            fwdBeforeSignal, retry, slept, exitCode>>
-xvars == <<cfg, lastFail, lastN, answered>>
+xvars == <<cfg, lastFail, lastN, answered, arrAfter>>
 Is(e) == l <= TLen /\ Trace[l].ev = e
 E == Trace[l]
 Step == l' = l + 1 /\ Mark(l)
 Same == UNCHANGED avars /\ UNCHANGED xvars
 
 NoCfg == [threshold |-> 2, health |-> FALSE, grace_ms |-> 0, latency_ms |-> 0]
-TInit == /\ A!LInit /\ cfg = NoCfg /\ lastFail = -1 /\ lastN = 0 /\ answered = FALSE /\ l = 1 /\ HWMInit
+TInit == /\ A!LInit /\ cfg = NoCfg /\ lastFail = -1 /\ lastN = 0 /\ answered = FALSE /\ arrAfter = 0 /\ l = 1 /\ HWMInit
 
 TReset == Is("Reset") /\ UNCHANGED <<avars, xvars>>
                /\ Step
@@ -35,7 +36,7 @@ TCfg == Is("Cfg")
         /\ phase' = (IF E.health THEN "waitHealthy" ELSE "polling")
         /\ checks' = 0 /\ bad' = 0 /\ streak' = 0 /\ passed' = FALSE /\ loop' = "check" /\ lists' = 0 /\ listsAfterCancel' = 0
         /\ cancelled' = FALSE /\ signalled' = FALSE /\ clock' = 0 /\ req' = "none" /\ reqAt' = 0 /\ fwdBeforeSignal' = FALSE
-        /\ retry' = 0 /\ slept' = TRUE /\ exitCode' = -1 /\ lastFail' = -1 /\ lastN' = 0 /\ answered' = FALSE
+        /\ retry' = 0 /\ slept' = TRUE /\ exitCode' = -1 /\ lastFail' = -1 /\ lastN' = 0 /\ answered' = FALSE /\ arrAfter' = 0
                /\ Step
 
 \* a health probe was answered by the backend: startup check or periodic check
@@ -73,21 +74,24 @@ TPollStop == Is("PollStop") /\ UNCHANGED xvars /\ cancelled /\ loop = "check"
         /\ UNCHANGED <<phase, checks, bad, streak, passed, lists, listsAfterCancel, cancelled, signalled, clock, req, reqAt, fwdBeforeSignal, retry, slept, exitCode>>
                /\ Step
 \* the fake proxy received a list call: not before the pending back-off delay has elapsed
-TListArrive == Is("ListArrive") /\ Same
+\* ... and after the cancellation of the polling context at most the one call whose context check came before it
+\* (C20: no new list call is started once the one in flight has returned - however it returned)
+TListArrive == Is("ListArrive") /\ UNCHANGED avars /\ UNCHANGED <<cfg, lastFail, lastN, answered>>
+        /\ arrAfter' = (IF cancelled THEN arrAfter + 1 ELSE arrAfter) /\ arrAfter' <= 1
         /\ (lastFail >= 0 => E.t_us - lastFail >= A!Lo(lastN))
                /\ Step
-TListAnswer == Is("ListAnswer") /\ UNCHANGED avars /\ UNCHANGED <<cfg, lastN, answered>>
+TListAnswer == Is("ListAnswer") /\ UNCHANGED avars /\ UNCHANGED <<cfg, lastN, answered, arrAfter>>
         /\ lastFail' = (IF E.ok THEN -1 ELSE E.t_us)
                /\ Step
 \* (the agent may take a list call for a success only if the proxy answered it successfully: lastFail = -1)
-TListOK == Is("ListOK") /\ UNCHANGED <<cfg, lastN, answered>> /\ lastFail = -1 /\ lastFail' = -1
+TListOK == Is("ListOK") /\ UNCHANGED <<cfg, lastN, answered, arrAfter>> /\ lastFail = -1 /\ lastFail' = -1
         /\ loop = "listing" /\ loop' = "check" /\ retry' = 0 /\ slept' = TRUE
         /\ req' = (IF E.ids # <<>> /\ req = "none" THEN "listed" ELSE req)
         /\ UNCHANGED <<phase, checks, bad, streak, passed, lists, listsAfterCancel, cancelled, signalled, clock, reqAt, fwdBeforeSignal, exitCode>>
                /\ Step
 \* a failed list call: the hook reports the loop's retry counter, which must equal the number of
 \* consecutive failures since the last success
-TListFail == Is("ListFail") /\ UNCHANGED <<cfg, lastFail, answered>>
+TListFail == Is("ListFail") /\ UNCHANGED <<cfg, lastFail, answered, arrAfter>>
         /\ loop = "listing" /\ E.retry = retry
         /\ loop' = "check" /\ retry' = retry + 1 /\ slept' = FALSE /\ lastN' = retry
         /\ UNCHANGED <<phase, checks, bad, streak, passed, lists, listsAfterCancel, cancelled, signalled, clock, req, reqAt, fwdBeforeSignal, exitCode>>
@@ -111,7 +115,7 @@ TFetch == Is("FakeFetch") /\ UNCHANGED xvars /\ req = "listed" /\ req' = "fetche
 TBackend == Is("BackendHandle") /\ UNCHANGED xvars /\ req = "fetched" /\ req' = "backend" /\ fwdBeforeSignal' = ~signalled
         /\ UNCHANGED <<phase, checks, bad, streak, passed, loop, lists, listsAfterCancel, cancelled, signalled, clock, reqAt, retry, slept, exitCode>>
                /\ Step
-TPost == Is("FakePost") /\ UNCHANGED <<cfg, lastFail, lastN>> /\ req = "backend" /\ req' = "answered" /\ answered' = E.ok
+TPost == Is("FakePost") /\ UNCHANGED <<cfg, lastFail, lastN, arrAfter>> /\ req = "backend" /\ req' = "answered" /\ answered' = E.ok
         /\ UNCHANGED <<phase, checks, bad, streak, passed, loop, lists, listsAfterCancel, cancelled, signalled, clock, reqAt, fwdBeforeSignal, retry, slept, exitCode>>
                /\ Step
 \* the signal reached main (hook); cancellation and end of the grace period are separate hooks
